@@ -81,7 +81,9 @@ var st = stat.New("C18",
 	"VERIF_C18_ASSUME_FIXED unset: inputs with len < 3 or consisting of white space only are excluded (known defect D-C18-short), pinned case reports it; =1: nothing excluded",
 	"flag-package diagnostics are silenced by pointing os.Stderr at /dev/null inside the test process (runtime crashes still reach fd 2)")
 
-var assumeFixed = os.Getenv("VERIF_C18_ASSUME_FIXED") == "1"
+// D-C18-short is repaired in the repository (KNOWN_FINDINGS.txt "fixed:"), so nothing is excluded by
+// default; VERIF_C18_ASSUME_FIXED=0 re-enables the exclusion for experiments on older trees.
+var assumeFixed = os.Getenv("VERIF_C18_ASSUME_FIXED") != "0"
 
 const knownKey = "D-C18-short"
 
